@@ -886,6 +886,34 @@ package mcp
 //@   ensures @text-rendering-when-the-handler-gave-no-content calls(schema) == 2 && callResult(schema, 2, 1) == nil && (callResult(handler, 1, 0) == nil || at(afterHandler, callResult(handler, 1, 0).Content == nil)) ==> len(result.0.Content) == 1 && typeIs(result.0.Content[0], *TextContent)
 //@   ensures @handler-result-object-is-kept calls(schema) == 2 && callResult(schema, 2, 1) == nil && callResult(handler, 1, 0) != nil ==> result.0 == callResult(handler, 1, 0)
 
+// setSchema: which resolved schema the typed wrapper validates with. A tool that declares a schema is validated with
+// the resolution of that very schema - looked up in the cache by the schema's own pointer, or resolved from it - and
+// never with a schema inferred from the Go type; only a tool without a declared schema takes the by-type entry.
+//@ func setSchema [C16]
+//@   track getByType as byType
+//@   track getBySchema as byPointer
+//@   track Resolve as resolve
+//@   requires sfield != nil && rfield != nil
+//@   modifies *
+//@   ensures @a-declared-schema-never-takes-the-by-type-entry old(*sfield) != nil ==> calls(byType) == 0
+//@   ensures @a-declared-schema-is-the-one-resolved old(*sfield) != nil && err == nil && typeIs(old(*sfield), *jsonschema.Schema) ==>
+//@        calls(byPointer) <= 1 && calls(resolve) <= 1 && (calls(byPointer) == 1 ==> callArg(byPointer, 1, 1) == old(*sfield).(*jsonschema.Schema)) &&
+//@        ((calls(byPointer) == 1 && callResult(byPointer, 1, 1) && calls(resolve) == 0 && *rfield == callResult(byPointer, 1, 0)) ||
+//@         (calls(resolve) == 1 && callArg(resolve, 1, 0) == old(*sfield).(*jsonschema.Schema) && *rfield == callResult(resolve, 1, 0) && callResult(resolve, 1, 1) == nil))
+//@   ensures @an-inferred-schema-is-resolved-from-itself old(*sfield) == nil && err == nil ==>
+//@        (calls(byType) == 1 && callResult(byType, 1, 2) && *rfield == callResult(byType, 1, 1) && typeIs(*sfield, *jsonschema.Schema) && (*sfield).(*jsonschema.Schema) == callResult(byType, 1, 0)) ||
+//@        (calls(byType) <= 1 && calls(resolve) == 1 && *rfield == callResult(resolve, 1, 0) && callResult(resolve, 1, 1) == nil)
+
+// The schema cache is a pair of sync.Maps: lookups and stores change no memory a caller can see.
+//@ func (*SchemaCache).getByType [C16]
+//@   pure
+//@ func (*SchemaCache).getBySchema [C16]
+//@   pure
+//@ func (*SchemaCache).setByType [C16]
+//@   pure
+//@ func (*SchemaCache).setBySchema [C16]
+//@   pure
+
 //@ func isObjectJSON [C16]
 //@   pure
 
